@@ -802,3 +802,143 @@ pub fn gen_word(rng: &mut Rng, letters: &[u32], maxlen: usize) -> Vec<u32> {
     let n = rng.usize(maxlen + 1);
     (0..n).map(|_| *rng.pick(letters)).collect()
 }
+
+// ------------------------------------------------------------------ exhaustive tiny programs
+
+const TA: u32 = 0x61;
+const TB: u32 = 0x63;
+
+fn tiny_atoms() -> Vec<Op> {
+    vec![
+        Op::Empty,
+        Op::Eps,
+        Op::AllChar,
+        Op::Full,
+        Op::SigmaPlus,
+        Op::Char(TA),
+        Op::Char(TB),
+        Op::Range(TA, TB),
+        Op::Range(TB, MAXC),
+        Op::Range(0, TA),
+    ]
+}
+
+fn tiny_unary(i: usize) -> Vec<Op> {
+    vec![
+        Op::Comp(i),
+        Op::Star(i),
+        Op::Plus(i),
+        Op::Opt(i),
+        Op::Exp(i, 2),
+        Op::SmtLoop(i, 0, 2),
+        Op::SmtLoop(i, 1, 2),
+        Op::SmtLoop(i, 2, 1),
+        Op::LoopInf(i, 2),
+    ]
+}
+
+fn tiny_binary(i: usize, j: usize) -> Vec<Op> {
+    vec![Op::Concat(i, j), Op::Union(i, j), Op::Inter(i, j), Op::Diff(i, j)]
+}
+
+/// all level-2 terms as op sequences (the last op is the term)
+fn tiny_level2() -> Vec<Vec<Op>> {
+    let atoms = tiny_atoms();
+    let mut out = Vec::new();
+    for a in &atoms {
+        for u in tiny_unary(0) {
+            out.push(vec![a.clone(), u]);
+        }
+    }
+    for a in &atoms {
+        for b in &atoms {
+            for op in tiny_binary(0, 1) {
+                out.push(vec![a.clone(), b.clone(), op]);
+            }
+        }
+    }
+    out
+}
+
+fn shift_ops(ops: &[Op], by: usize) -> Vec<Op> {
+    let map: Vec<usize> = (0..ops.len()).map(|i| i + by).collect();
+    ops.iter()
+        .map(|op| {
+            let mut o = op.clone();
+            remap(&mut o, &map);
+            o
+        })
+        .collect()
+}
+
+/// Enumeration of ALL construction programs with at most two nested non-atomic operators over a 10-atom
+/// vocabulary where the outer operator is unary or has an atomic operand (index space `tiny_count()`), plus
+/// sampled programs whose outer operator joins two level-2 terms. Program `idx` is built on demand.
+pub fn tiny_count() -> usize {
+    let l2 = tiny_level2().len();
+    let atoms = tiny_atoms().len();
+    // level 1 (atoms), level 2, unary over level 2, binary (level2, atom) and (atom, level2)
+    atoms + l2 + l2 * 9 + 2 * l2 * atoms * 4
+}
+
+pub fn tiny_program(idx: usize) -> Program {
+    let atoms = tiny_atoms();
+    let l2 = tiny_level2();
+    let (na, nl) = (atoms.len(), l2.len());
+    let points = vec![0, TA, TB, MAXC];
+    let mut i = idx;
+    if i < na {
+        return Program { points, ops: vec![atoms[i].clone()] };
+    }
+    i -= na;
+    if i < nl {
+        return Program { points, ops: l2[i].clone() };
+    }
+    i -= nl;
+    if i < nl * 9 {
+        let mut ops = l2[i / 9].clone();
+        let last = ops.len() - 1;
+        ops.push(tiny_unary(last)[i % 9].clone());
+        return Program { points, ops };
+    }
+    i -= nl * 9;
+    let per = na * 4;
+    if i < nl * per {
+        // binary(level2, atom)
+        let mut ops = l2[i / per].clone();
+        let x = ops.len() - 1;
+        let r = i % per;
+        ops.push(atoms[r / 4].clone());
+        let y = ops.len() - 1;
+        ops.push(tiny_binary(x, y)[r % 4].clone());
+        return Program { points, ops };
+    }
+    i -= nl * per;
+    // binary(atom, level2)
+    let mut ops = l2[(i / per) % nl].clone();
+    let y = ops.len() - 1;
+    let r = i % per;
+    ops.push(atoms[r / 4].clone());
+    let x = ops.len() - 1;
+    ops.push(tiny_binary(x, y)[r % 4].clone());
+    Program { points, ops }
+}
+
+/// sampled program joining two level-2 terms with a binary operator (optionally wrapped in a unary one)
+pub fn tiny_pair_program(rng: &mut Rng) -> Program {
+    let l2 = tiny_level2();
+    let a = rng.pick(&l2).clone();
+    let b = rng.pick(&l2).clone();
+    let mut ops = a.clone();
+    let x = ops.len() - 1;
+    ops.extend(shift_ops(&b, a.len()));
+    let y = ops.len() - 1;
+    let k = rng.usize(4);
+    ops.push(tiny_binary(x, y)[k].clone());
+    if rng.chance(1, 3) {
+        let z = ops.len() - 1;
+        let u = rng.usize(9);
+        ops.push(tiny_unary(z)[u].clone());
+    }
+    Program { points: vec![0, TA, TB, MAXC], ops }
+}
